@@ -66,6 +66,13 @@ fn judge_at(x: &Vec<u8>, t: &Vec<u8>, st: &mut Stats) -> Verdict {
             }
         }
     }
+    // a receiver sees the verdict through the auto-detecting entry point: whenever the v2 parser has ruled the input
+    // out for good, the v1 verdict on a closed input must come through as complete there too
+    if let (Ok(a), Ok(r2)) = (imp::auto(x), imp::v2_parse(x)) {
+        if r2.is_err() && r2.is_complete() && (a.is_incomplete() || !a.is_complete()) {
+            return fail("HeaderResult::parse", imp::short(&format!("{:?}", a)));
+        }
+    }
     // frozen window: once CR-closed, later bytes cannot change the result
     if by_cr && !t.is_empty() {
         let mut xt = x.clone();
